@@ -24,7 +24,7 @@ const char *const wfn_name[F_N] = {
   "fork", "kill", "waitpid", "pipe", "close", "dup2", "fcntl", "open", "read",
   "write", "poll", "malloc", "calloc", "realloc", "free", "strdup", "chdir",
   "getcwd", "getrlimit", "execvp", "sigaction", "sigmask", "sigemptyset",
-  "sigfillset", "fileno", "_exit", "clock_gettime", "other"
+  "sigfillset", "fileno", "_exit", "clock_gettime", "other", "anyalloc"
 };
 
 wshared *W;
@@ -850,6 +850,8 @@ void *__wrap_malloc(size_t n)
   int k = next_k(F_malloc);
   trec *t = rec(F_malloc, k, (long) n, 0, 0);
   int e = fault_for(F_malloc, k, t);
+  int ka = next_k(F_anyalloc);  // position among all allocation calls, whatever the function
+  if (!e) e = fault_for(F_anyalloc, ka, t);
   if (e) {
     t->ret = 0;
     errno = e;
@@ -866,6 +868,8 @@ void *__wrap_calloc(size_t a, size_t b)
   int k = next_k(F_calloc);
   trec *t = rec(F_calloc, k, (long) a, (long) b, 0);
   int e = fault_for(F_calloc, k, t);
+  int ka = next_k(F_anyalloc);  // position among all allocation calls, whatever the function
+  if (!e) e = fault_for(F_anyalloc, ka, t);
   if (e) {
     t->ret = 0;
     errno = e;
@@ -882,6 +886,8 @@ void *__wrap_realloc(void *old, size_t n)
   int k = next_k(F_realloc);
   trec *t = rec(F_realloc, k, (long) n, 0, 0);
   int e = fault_for(F_realloc, k, t);
+  int ka = next_k(F_anyalloc);  // position among all allocation calls, whatever the function
+  if (!e) e = fault_for(F_anyalloc, ka, t);
   if (e) {
     t->ret = 0;
     errno = e;
@@ -900,6 +906,8 @@ char *__wrap_strdup(const char *s)
   int k = next_k(F_strdup);
   trec *t = rec(F_strdup, k, 0, 0, 0);
   int e = fault_for(F_strdup, k, t);
+  int ka = next_k(F_anyalloc);  // position among all allocation calls, whatever the function
+  if (!e) e = fault_for(F_anyalloc, ka, t);
   if (e) {
     t->ret = 0;
     errno = e;
